@@ -234,7 +234,9 @@ Definition dec_brule (s : sx) : option brule :=
 Inductive bop := QAsk (g : bcond) (q : sx) | QSet (k : str) (v : value) | QDel (k : str) | QNoise.
 Definition dec_bop (s : sx) : option bop :=
   match s with
-  | L [A 0; g] => match dec_bcond g with Some c => Some (QAsk c g) | None => None end
+  (* the query text is `field op literal`: like every goal pattern, an integer literal is read back as a float (and compared as an
+     integer when the fact holds an integer) *)
+  | L [A 0; g] => match dec_bcond g with Some c => Some (QAsk (subgoal_of c) g) | None => None end
   | L [A 1; k; v] => match getZs k, dec_val v with Some k, Some v => Some (QSet k v) | _, _ => None end
   | L [A 2; k] => match getZs k with Some k => Some (QDel k) | None => None end
   | L [A 3] => Some QNoise
